@@ -206,6 +206,15 @@ func (fx *FnCtx) noteHeapSymbol(h *Term, name string, leaf Leaf) {
 		body = tc.inRange(cur, leaf.T)
 	} else {
 		body = tc.Ge0(cur)
+		// references and array ids held in memory at function entry denote objects that existed then
+		if strings.HasPrefix(h.Name, "H0_") {
+			switch leaf.Kind {
+			case "id":
+				body = And(body, tc.IdxLt(cur, fx.root.entryNAlloc))
+			case "ref":
+				body = And(body, tc.validRef(cur, fx.root.entryNAlloc))
+			}
+		}
 	}
 	fx.root.axioms = append(fx.root.axioms, Forall(bound, body, []*Term{cur}))
 }
